@@ -99,7 +99,7 @@ Definition oeval (r : string -> Q) (e : option expr) : option Q :=
   match e with Some x => evalQ r x | None => None end.
 
 Definition cmp (inexact : bool) (a b : option Q) : nat :=
-  if inexact then cmpQ_tol (1 # 1000000000) a b else cmpQ a b.
+  if inexact then cmpQ_tol (1 # 1000000000) a b else cmpQ_rel (1 # 1000000000000) a b.
 
 (* one direct repetition case at several points:
    tie  = implementation vs the generated formula,
